@@ -219,6 +219,34 @@ func Observe(m *dns.Msg, rcode int, err error) Resp {
 
 type tidKey struct{}
 
+type tidVal struct {
+	r   *Runner
+	tid int
+}
+
+var (
+	hookOnce sync.Once
+	goids    sync.Map // goroutine id -> tidVal (reload threads: their yield points get no context)
+)
+
+func globalHook(ctx context.Context, point string) {
+	v, ok := ctx.Value(tidKey{}).(tidVal)
+	if !ok {
+		g, ok2 := goids.Load(goid())
+		if !ok2 {
+			return // not a scheduled thread (stress mode, validation reads inside Reload): do not park
+		}
+		v = g.(tidVal)
+	}
+	v.r.arrive <- arrival{v.tid, point}
+	<-v.r.threads[v.tid].resume
+}
+
+// InstallHook installs the process-wide yield hook (idempotent).
+func InstallHook() {
+	hookOnce.Do(func() { dnsserver.SetVerifYieldHook(globalHook) })
+}
+
 type arrival struct {
 	tid   int
 	point string
@@ -241,7 +269,6 @@ type Runner struct {
 	Disk    map[int]File
 	threads []*thr
 	arrive  chan arrival
-	goids   sync.Map // goroutine id -> tid (reload threads: their yield points get no context)
 	holder  int      // reload thread currently between reload_locked and return, or -1
 	Steps   []Step
 	Resps   []Resp   // per thread (queries)
@@ -281,28 +308,15 @@ func NewRunner(w *World, h *dnsserver.FBDNSDB, st *SafeStats, disk map[int]File,
 			go r.reloadThread(i, t)
 		}
 	}
-	dnsserver.SetVerifYieldHook(r.hook)
+	InstallHook()
 	return r
-}
-
-func (r *Runner) hook(ctx context.Context, point string) {
-	tid, ok := ctx.Value(tidKey{}).(int)
-	if !ok {
-		v, ok2 := r.goids.Load(goid())
-		if !ok2 {
-			return // not one of ours (e.g. validation inside Reload): do not park
-		}
-		tid = v.(int)
-	}
-	r.arrive <- arrival{tid, point}
-	<-r.threads[tid].resume
 }
 
 func (r *Runner) queryThread(i int, t *thr) {
 	<-t.resume
 	req := BuildRequest(t.spec, uint16(1000+i))
 	rec := dnstest.NewRecorder(&test.ResponseWriterCustomRemote{RemoteIP: t.spec.IP})
-	ctx := context.WithValue(context.Background(), tidKey{}, i)
+	ctx := context.WithValue(context.Background(), tidKey{}, tidVal{r, i})
 	var rcode int
 	var err error
 	func() {
@@ -332,7 +346,7 @@ func ReloadErrKind(err error) string {
 
 func (r *Runner) reloadThread(i int, t *thr) {
 	<-t.resume
-	r.goids.Store(goid(), i)
+	goids.Store(goid(), tidVal{r, i})
 	var sig *dnsserver.ReloadSignal
 	if t.spec.Full {
 		sig = dnsserver.NewFullReloadSignal(r.W.Path(t.spec.Path))
@@ -351,11 +365,25 @@ func (r *Runner) reloadThread(i int, t *thr) {
 	r.RelErr[i] = ReloadErrKind(err)
 	if r.RelErr[i] == "timeout" {
 		// the reload goroutine of db.Reload may still be running: let it finish so
-		// that its late effects (if any) are observed at a fixed place
-		time.Sleep(150 * time.Millisecond)
+		// that its late effects (if any) are observed at a fixed place (and never
+		// after the handler was closed)
+		waitReloadGoroutines()
 	}
-	r.goids.Delete(goid())
+	goids.Delete(goid())
 	r.arrive <- arrival{i, "done"}
+}
+
+// waitReloadGoroutines waits until no goroutine started by db.(*DB).Reload is left
+// (they have no handle; their presence is read off the goroutine dump).
+func waitReloadGoroutines() {
+	buf := make([]byte, 4<<20)
+	for i := 0; i < 400; i++ {
+		time.Sleep(25 * time.Millisecond)
+		n := runtime.Stack(buf, true)
+		if !bytes.Contains(buf[:n], []byte("db.(*DB).Reload.func1")) {
+			return
+		}
+	}
 }
 
 func (r *Runner) record(a arrival) {
@@ -466,7 +494,7 @@ func (r *Runner) Run(sched []int) {
 	for _, i := range sched {
 		r.StepThread(i)
 	}
-	r.BlockWait = 300 * time.Millisecond
+	r.BlockWait = 80 * time.Millisecond
 	for iter := 0; iter < 400; iter++ {
 		pick, left := -1, 0
 		for i, t := range r.threads {
@@ -499,5 +527,4 @@ func (r *Runner) Run(sched []int) {
 			r.Err = "deadlock: " + r.stuck()
 		}
 	}
-	dnsserver.SetVerifYieldHook(func(context.Context, string) {})
 }
